@@ -47,6 +47,9 @@ def conv_interval(d, form='datetime', container='list', tz=None):
                 vals = [to_date(x, form, tz) for x in v]
                 if container == 'dtindex':
                     vals = pd.DatetimeIndex([pd.Timestamp(x) for x in v])
+                elif container == 'dtrange_tz':
+                    # a zone-aware index with a calendar frequency, as pd.date_range produces it (daily steps in local time)
+                    vals = pd.date_range(start=pd.Timestamp(v[0]), periods=len(v), freq='D', tz=tz)
                 elif container == 'array':
                     vals = np.array([pd.Timestamp(x) for x in v])
                 elif container in ('np_D', 'np_h', 'np_m', 'np_ns'):
